@@ -141,7 +141,9 @@ func VpC09Macros() {
 	conf := "SecRuleEngine On\n" +
 		"SecAction \"id:1,phase:1,pass,setvar:tx.b=B1,setvar:tx.a=%{tx.b},setvar:tx.b=B2,setvar:tx.c=%{tx.b}\"\n" +
 		"SecRule ARGS \"@rx ^[xy]$\" \"id:2,phase:1,pass,setvar:tx.m_%{matched_var}=+1,setvar:tx.last=%{matched_var_name},setvar:tx.rid=%{rule.id}\"\n" +
-		"SecAction \"id:3,phase:1,pass,setvar:tx.d=1,setvar:!tx.d,setvar:tx.e=%{tx.d}\"\n"
+		"SecAction \"id:3,phase:1,pass,setvar:tx.d=1,setvar:!tx.d,setvar:tx.e=%{tx.d}\"\n" +
+		// arithmetic with macro operands, including a negative one and a zero
+		"SecAction \"id:4,phase:1,pass,setvar:tx.neg=-4,setvar:tx.zero=0,setvar:tx.p=10,setvar:tx.p=+%{tx.neg},setvar:tx.q=10,setvar:tx.q=-%{tx.neg},setvar:tx.r=10,setvar:tx.r=+%{tx.zero},setvar:tx.t=-3,setvar:tx.t=+5\"\n"
 	waf := vpBuild("c09macros", conf)
 	tx := waf.NewTransaction()
 	p := vp.Choice("nargs", vp.Param("ARGS", 3)+1)
@@ -175,6 +177,10 @@ func VpC09Macros() {
 		vp.Observe("last", get("last"))
 		vp.Assert(len(get("last")) == 7 && get("last")[:6] == "ARGS:k", "%{matched_var_name} did not expand to the name of the matched variable")
 	}
+	vp.Assert(get("p") == "6", "setvar:tx.p=+%{tx.neg} with tx.neg=-4 did not add the (negative) value")
+	vp.Assert(get("q") == "14", "setvar:tx.q=-%{tx.neg} with tx.neg=-4 did not subtract the (negative) value")
+	vp.Assert(get("r") == "10", "setvar:tx.r=+%{tx.zero} changed the counter")
+	vp.Assert(get("t") == "2", "+5 on a negative current value is wrong")
 	vp.Assert(get("d") == "<unset>", "setvar:!tx.d did not delete the variable")
 	vp.Assert(get("e") != "1", "macro naming a deleted variable expanded to the stale value")
 	tx.ProcessLogging()
